@@ -114,6 +114,9 @@ def frame_verdict(trk, snap, pre, f, client, knob, gc_possible=True):
             return ACCEPT
         if state == 'closed' and pre.closed_by == 'rst_sent':
             p = f.promised
+            if not pre.mine or pre.pushed:
+                # a promise on a pushed stream (no recursive pushes) that was reset: either reason may be given
+                return either(('stream', C.REFUSED_STREAM), ('conn', P), ('stream', SC), ('conn', SC))
             if forgotten or not p or p % 2 or p <= snap['hi_peer']:
                 # a promised id that is not new: a connection error, or the reaction any frame on that (reset) id gets
                 return either(('stream', C.REFUSED_STREAM), ('conn', P), ('stream', SC), ('conn', SC))
